@@ -473,8 +473,11 @@ class ManifestRecursiveLoader:
                 if not to_load:
                     break
 
-                manifests = pool.imap_unordered(
-                    self.manifest_loader, to_load, chunksize=16)
+                # NB: consume all results before accepting any of them;
+                # a mismatch must not leave the same Manifest loaded
+                # via a weaker duplicate entry checked just before it
+                manifests = list(pool.imap_unordered(
+                    self.manifest_loader, to_load, chunksize=16))
                 self.loaded_manifests.update(manifests)
 
     def find_timestamp(self):
